@@ -279,7 +279,9 @@ Definition step_top (s : state) (f : frame) (rest : list frame) (arg : nat) : re
       | OCache key body :: q =>
           if Nat.eqb arg 0 then
             match cache_get (r_cache (getr s r)) key with
-            | Some child => Some (s, FCacheLink child c :: FScript r c q :: rest, [])
+            | Some child =>
+                (* the cache cannot hold the computation that is running (it is stored when it has returned) *)
+                if Nat.eqb child c then None else Some (s, FCacheLink child c :: FScript r c q :: rest, [])
             | None => Some (s, FChildBegin r key body c :: FScript r c q :: rest, [])
             end
           else if Nat.eqb arg 2 then Some (s, FScript r c q :: rest, [])   (* the compute function does not call Cache this time *)
